@@ -39,7 +39,10 @@ def canon(v):
             return ("excinfo",)
         return (v.op, tuple(canon(a) for a in v.args))
     if isinstance(v, ListV):
-        return (v.kind, tuple(canon(a) for a in v.items))
+        items = [canon(a) for a in v.items]
+        if v.kind == "set":
+            items = list(dict.fromkeys(items))  # a set holds each value once
+        return (v.kind, tuple(items))
     if isinstance(v, DictV):
         return ("dict", tuple((canon(k), canon(x)) for k, x in v.items if k != Const("$symtab")))
     if isinstance(v, ObjV):
